@@ -191,7 +191,7 @@ void Jacobi (Matrix<RC,RC,T>& a, Matrix<RC,RC,T>& evec, Vector<RC,U>& eval)
 	// after four iterations, skip the rotation if the off-diagonal
 	// element is small
 
-	U g = 100.0 * norm(a[ip][iq]);
+	U g = 100.0 * std::abs(a[ip][iq]);
 
 	if ( iter > 4 
 	     && norm(eval[ip])+g == norm(eval[ip])
